@@ -119,6 +119,49 @@ fn check(c: &Case) -> Verdict {
     r.read_to_end(&mut back).map_err(|e| vec![Fail::new("c01.reader-error", format!("Reader::read_to_end: {e}"))])?;
     ensure!(back == data, "c01.roundtrip", "reader returned {} bytes, payload has {} (first difference at {:?})", back.len(), data.len(), first_diff(&back, &data));
 
+    // Oracle 1b: the same through read_exact and read with request sizes taken from the write
+    // history (small, block-sized, straddling): every way of asking returns the payload
+    {
+        use std::io::Read as _;
+        let mut sizes: Vec<usize> = c.ops.iter().filter_map(|o| match o { Op::Write(n) | Op::WriteAll(n) => Some((*n as usize).max(1)), Op::Flush => None }).collect();
+        if sizes.is_empty() {
+            sizes.push(7);
+        }
+        sizes.push(3);
+        let mut r = bgzf::io::Reader::new(&file[..]);
+        let mut got: Vec<u8> = Vec::with_capacity(data.len());
+        let mut i = 0usize;
+        while got.len() < data.len() {
+            let n = sizes[i % sizes.len()].min(data.len() - got.len());
+            i += 1;
+            let at = got.len();
+            got.resize(at + n, 0);
+            if let Err(e) = r.read_exact(&mut got[at..]) {
+                return fail1("c01.roundtrip.read-exact", format!("read_exact({n}) at payload offset {at} of {}: {e}", data.len()));
+            }
+        }
+        ensure!(got == data, "c01.roundtrip.read-exact", "read_exact with request sizes {:?}… returned bytes that differ from the payload at {:?}", &sizes[..sizes.len().min(6)], first_diff(&got, &data));
+        let mut one = [0u8; 1];
+        ensure!(matches!(r.read(&mut one), Ok(0)), "c01.roundtrip.read-exact", "after the whole payload was read with read_exact a further read does not return 0");
+        let mut r = bgzf::io::Reader::new(&file[..]);
+        let mut got: Vec<u8> = Vec::with_capacity(data.len());
+        let mut buf = vec![0u8; sizes.iter().copied().max().unwrap_or(1)];
+        let mut i = 0usize;
+        loop {
+            let n = sizes[i % sizes.len()];
+            i += 1;
+            match r.read(&mut buf[..n]) {
+                Ok(0) => break,
+                Ok(k) => got.extend_from_slice(&buf[..k]),
+                Err(e) => return fail1("c01.roundtrip.read", format!("read into {n} bytes at payload offset {}: {e}", got.len())),
+            }
+            if got.len() > data.len() + 70_000 {
+                break;
+            }
+        }
+        ensure!(got == data, "c01.roundtrip.read", "read with buffer sizes {:?}… returned {} bytes, payload has {} (first difference at {:?})", &sizes[..sizes.len().min(6)], got.len(), data.len(), first_diff(&got, &data));
+    }
+
     // Oracle 2: independent walker
     let members = bgzf_walk::walk(&file).map_err(|e| vec![Fail::new("c01.malformed", e)])?;
     for m in &members {
